@@ -1,22 +1,34 @@
 (* Property C01 — Parse accepts exactly the JSON grammar (object or array at
-   the root).  The full statement is [C01_full]; what is proved so far are the
-   token-level halves (every scalar validator of stage 2 accepts exactly the
-   RFC 8259 token followed by a legal delimiter) and the tie of every table
-   involved.  The remaining part — stage 1's structural positions are exactly
-   the token starts, and the stage-2 machine over them is the grammar — is
-   decided on every run by the three-way correspondence (implementation,
-   extracted model, extracted spec_parse); see DESIGN.md §6 C01. *)
+   the root).  Proved in full on the model (C01_parse_accepts_iff_grammar):
+   trim, scalar stage 1 with its index buffers, the stage-2 machine and the
+   token validators against the RFC 8259 recogniser spec_parse.  What ties the
+   model to the code: table/constant obligations re-checked on every run and
+   the three-way correspondence (implementation, extracted model, extracted
+   spec) — see DESIGN.md §6 C01. *)
 From SJ Require Import Model.Base Model.RefTables Spec.Json Model.Number Model.Str Model.Stage2 Model.Driver
-     Proofs.NumLex Proofs.NumberProofs Proofs.StrProofs Proofs.AtomProofs Proofs.AcceptProofs Model.Tape Tie.GoTablesTie Tie.StrTablesTie.
+     Proofs.NumLex Proofs.NumberProofs Proofs.StrProofs Proofs.AtomProofs Proofs.AcceptProofs Proofs.RejectProofs Model.Tape Tie.GoTablesTie Tie.StrTablesTie.
 Open Scope N_scope.
 
-(* the full statement (not yet a theorem) *)
+(* the full statement *)
 Definition C01_full : Prop :=
   forall (copy : bool) (bs : bytes),
+    N.of_nat (length bs) < 2 ^ 55 ->
     spec_parse bs <> SOut -> spec_parse bs <> SFuel ->
-    (is_ok (parse_model copy bs) = true <-> exists d, spec_parse bs = SOk d).
+    ((exists p, parse_model copy bs = Ok p) <-> exists d, spec_parse bs = SOk d).
 
-(* PROVED HALF of C01_full — completeness of acceptance: every RFC 8259 text
+(* C01, in full, on the model: outside the stated exclusions (SOut) Parse
+   succeeds if and only if the input, ignoring leading and trailing white space,
+   is a JSON text per RFC 8259 with an object or array at the root and finite
+   numbers — for every byte string below 2^55 bytes, in both string modes. *)
+Theorem C01_parse_accepts_iff_grammar : C01_full.
+Proof. exact parse_accepts_iff. Qed.
+
+(* every other input returns an error: not a result, not a crash *)
+Theorem C01_rejects_everything_else : forall (copy : bool) (bs : bytes),
+  N.of_nat (length bs) < 2 ^ 55 -> spec_parse bs = SInvalid -> parse_model copy bs = Err.
+Proof. exact parse_rejects_invalid. Qed.
+
+(* completeness of acceptance, with the document: every RFC 8259 text
    with an object/array root and finite numbers (spec_parse = SOk) is accepted,
    in both string modes, whatever its size, layout and position relative to
    64-byte blocks and index buffers; and the tape denotes exactly the
@@ -68,6 +80,8 @@ Proof. exact tie_jsonMarkup. Qed.
 Theorem C01_tie_string_tables : digittoval_diff = [] /\ escape_map_diff = [].
 Proof. exact (conj tie_digittoval tie_escape_map). Qed.
 
+Print Assumptions C01_parse_accepts_iff_grammar.
+Print Assumptions C01_rejects_everything_else.
 Print Assumptions C01_accepts_every_valid_document.
 Print Assumptions C01_token_number_partial.
 Print Assumptions C01_token_true_partial.
